@@ -46,11 +46,17 @@ DECIMALS = ["Decimal('0')", "Decimal('1')", "Decimal('-1.5')", "Decimal('0.1')",
             "Decimal('-99999.9999')", "Decimal('2.50')", "Decimal('100')", "Decimal('12345678901234.5')",
             # few significant digits, exponents far outside the float range
             "Decimal('1E+400')", "Decimal('-1.5E+309')", "Decimal('1.5E+17')", "Decimal('-2.5E+300')", "Decimal('1E-400')",
-            "Decimal('7E-320')"]
+            "Decimal('7E-320')",
+            # 15 significant digits in the subnormal float range (a float keeps fewer there)
+            "Decimal('1.23456789012345E-320')", "Decimal('-1.23456789012345E-310')", "Decimal('1.23456789012345E-307')"]
 DATES = ["date(1,1,1)", "date(1970,1,1)", "date(2020,2,29)", "date(9999,12,31)", "date(999,1,9)"]
 _OFFS = ["", "tzinfo=timezone.utc", "tzinfo=timezone(timedelta(hours=-12))", "tzinfo=timezone(timedelta(hours=-5))",
          "tzinfo=timezone(timedelta(minutes=-30))", "tzinfo=timezone(timedelta(0))",
-         "tzinfo=timezone(timedelta(hours=5, minutes=30))", "tzinfo=timezone(timedelta(hours=14))"]
+         "tzinfo=timezone(timedelta(hours=5, minutes=30))", "tzinfo=timezone(timedelta(hours=14))",
+         # offsets that carry seconds (local mean times of old zone data): isoformat writes +05:53:28
+         "tzinfo=timezone(timedelta(hours=5, minutes=53, seconds=28))", "tzinfo=timezone(-timedelta(hours=4, minutes=56, seconds=2))",
+         # "any UTC offset": Python allows sub-second ones (isoformat writes +00:00:00.000001)
+         "tzinfo=timezone(timedelta(microseconds=1))", "tzinfo=timezone(-timedelta(hours=1, microseconds=500))"]
 DATETIMES = [f"datetime(2020,1,2,3,4,5,{us}{',' if off else ''}{off})" for off in _OFFS for us in ("0", "1", "999999")] + \
             ["datetime(1,1,1,0,0,0)", "datetime(9999,12,31,23,59,59,999999)", "datetime(1970,1,1)", "datetime(2020,1,2)",
              "datetime(1969,12,31,23,59,59)", "datetime(2038,1,19,3,14,8)"]
@@ -76,7 +82,7 @@ TYPES = {
 SHAPES = ["scalar", "optional", "list", "set", "tuple", "dict", "nested", "pair",
           # containers of containers
           "set-of-tuples", "list-of-tuples", "dict-of-lists", "list-of-sets", "dict-of-nested", "list-of-nested", "frozenset",
-          "tuple-fixed"]
+          "tuple-fixed", "frozenset-of-tuples", "dict-of-frozensets-of-tuples"]
 
 
 def bounds(tier):
@@ -93,7 +99,9 @@ def source(base, t, shape):
          "tuple": f"Tuple[{ann}, ...]", "dict": f"Dict[str, {ann}]", "nested": "Inner", "pair": ann,
          "set-of-tuples": f"Set[Tuple[{ann}, int]]", "list-of-tuples": f"List[Tuple[{ann}, str]]",
          "dict-of-lists": f"Dict[str, List[{ann}]]", "list-of-sets": f"List[Set[{ann}]]", "dict-of-nested": "Dict[str, Inner]",
-         "list-of-nested": "List[Inner]", "frozenset": f"typing.FrozenSet[{ann}]", "tuple-fixed": f"Tuple[int, {ann}, Optional[{ann}]]"}[shape]
+         "list-of-nested": "List[Inner]", "frozenset": f"typing.FrozenSet[{ann}]",
+         "frozenset-of-tuples": f"typing.FrozenSet[Tuple[{ann}, int]]",
+         "dict-of-frozensets-of-tuples": f"Dict[str, typing.FrozenSet[Tuple[{ann}, {ann}]]]", "tuple-fixed": f"Tuple[int, {ann}, Optional[{ann}]]"}[shape]
     src = ""
     if "nested" in shape:
         src += f"class Inner({base}):\n    w: {ann}\n    n: int = 0\n"
@@ -153,6 +161,16 @@ def instances(t, shape, tier):
                 yield {"v": "{(" + v + ", 1)}"}
             for a, b in pairs:
                 yield {"v": "{(" + a + ", 1), (" + b + ", 2), (" + a + ", 3)}"}
+        elif shape == "frozenset-of-tuples":
+            yield {"v": "frozenset()"}
+            for v in vals[:n]:
+                yield {"v": "frozenset({(" + v + ", 1)})"}
+            for a, b in pairs:
+                yield {"v": "frozenset({(" + a + ", 1), (" + b + ", 2), (" + a + ", 3)})"}
+        elif shape == "dict-of-frozensets-of-tuples":
+            yield {"v": "{'k': frozenset()}"}
+            for a, b in pairs:
+                yield {"v": "{'k': frozenset({(" + a + ", " + b + ")}), '': frozenset({(" + b + ", " + b + "), (" + a + ", " + a + ")})}"}
         elif shape == "list-of-tuples":
             yield {"v": "[]"}
             for v in vals[:n]:
